@@ -1,3 +1,4 @@
+mod ddlparse;
 mod enumerate;
 mod dml;
 mod explore;
